@@ -55,6 +55,12 @@ func vJVGeneric(x interface{}) string {
 			p = append(p, vJVGeneric(e))
 		}
 		return "JArr [" + strings.Join(p, "; ") + "]"
+	case vOrdObj:
+		var p []string
+		for _, kv := range t {
+			p = append(p, "("+vCoqStr(kv.k)+", "+vJVGeneric(kv.v)+")")
+		}
+		return "JObj [" + strings.Join(p, "; ") + "]"
 	case map[string]interface{}:
 		var ks []string
 		for k := range t {
@@ -107,18 +113,25 @@ func (s *vSchema) jvOne(f *vField, x interface{}) string {
 
 // a document that is (meant to be) message m, as a Coq term of type jv
 func (s *vSchema) jvTerm(m *vMsg, node interface{}) string {
-	obj, ok := node.(map[string]interface{})
-	if !ok {
+	var entries vOrdObj
+	switch t := node.(type) {
+	case vOrdObj: // entries in document order, duplicates kept
+		entries = t
+	case map[string]interface{}:
+		var ks []string
+		for k := range t {
+			ks = append(ks, k)
+		}
+		sort.Strings(ks)
+		for _, k := range ks {
+			entries = append(entries, vKV{k, t[k]})
+		}
+	default:
 		return vJVGeneric(node)
 	}
-	var ks []string
-	for k := range obj {
-		ks = append(ks, k)
-	}
-	sort.Strings(ks)
 	var parts []string
-	for _, k := range ks {
-		v := obj[k]
+	for _, kv := range entries {
+		k, v := kv.k, kv.v
 		var f *vField
 		for _, g := range m.fields {
 			if g.jsonName == k || g.name == k {
@@ -161,6 +174,10 @@ type vHop struct {
 type vProbeRoot struct {
 	sg   *vSignal
 	path []vHop
+	// the root message the path starts at and the public JSON decoder of that root (request: JSONUnmarshaler;
+	// response: ExportResponse.UnmarshalJSON, observed through the accessors)
+	root      *vMsg
+	unmarshal func([]byte) (interface{}, error)
 }
 
 func vNest(path []vHop, leaf string) string {
@@ -190,7 +207,7 @@ func (s *vSchema) jsonPaths(sigs []*vSignal) (map[*vMsg]vProbeRoot, []*vMsg) {
 		if _, ok := res[root]; ok {
 			continue
 		}
-		res[root] = vProbeRoot{sg, nil}
+		res[root] = vProbeRoot{sg: sg, root: root, unmarshal: sg.unmarshalJSON}
 		order = append(order, root)
 		queue := []*vMsg{root}
 		for len(queue) > 0 {
@@ -204,7 +221,7 @@ func (s *vSchema) jsonPaths(sigs []*vSignal) (map[*vMsg]vProbeRoot, []*vMsg) {
 					continue
 				}
 				p := append(append([]vHop(nil), res[m].path...), vHop{f.jsonName, f.card == vcRep})
-				res[f.msg] = vProbeRoot{res[m].sg, p}
+				res[f.msg] = vProbeRoot{sg: res[m].sg, path: p, root: res[m].root, unmarshal: res[m].unmarshal}
 				order = append(order, f.msg)
 				queue = append(queue, f.msg)
 			}
@@ -246,7 +263,7 @@ func (s *vSchema) probeOne(pr vProbeRoot, root *vMsg, m *vMsg, f *vField, key, t
 				err = fmt.Errorf("panic: %v", r)
 			}
 		}()
-		x, err = pr.sg.unmarshalJSON([]byte(doc))
+		x, err = pr.unmarshal([]byte(doc))
 	}()
 	if err != nil {
 		return false, "error"
@@ -271,13 +288,47 @@ func (s *vSchema) probeOne(pr vProbeRoot, root *vMsg, m *vMsg, f *vField, key, t
 	return false, diffs[0].msg + "." + diffs[0].field
 }
 
+// the export responses: root = ExportXServiceResponse, decoded by ExportResponse.UnmarshalJSON
+func (s *vSchema) responsePaths(sigs []*vSignal, res map[*vMsg]vProbeRoot, order []*vMsg) []*vMsg {
+	for _, sg := range sigs {
+		sg := sg
+		root := s.byType[sg.resp]
+		if _, ok := res[root]; ok {
+			continue
+		}
+		un := func(doc []byte) (interface{}, error) {
+			a := sg.newResp(0, "")
+			if err := a.UnmarshalJSON(doc); err != nil {
+				return nil, err
+			}
+			n, e := sg.respGet(a)
+			w := reflect.New(root.typ)
+			w.Elem().Field(0).Field(0).SetInt(n)
+			w.Elem().Field(0).Field(1).SetString(e)
+			return w.Interface(), nil
+		}
+		res[root] = vProbeRoot{sg: sg, root: root, unmarshal: un}
+		order = append(order, root)
+		for _, f := range root.fields {
+			if f.ty == vtMsg {
+				if _, ok := res[f.msg]; !ok {
+					res[f.msg] = vProbeRoot{sg: sg, path: []vHop{{f.jsonName, f.card == vcRep}}, root: root, unmarshal: un}
+					order = append(order, f.msg)
+				}
+			}
+		}
+	}
+	return order
+}
+
 func (s *vSchema) probeDecoders(sigs []*vSignal, stat func(string, int)) ([]*vJDec, []*vMsg) {
 	paths, order := s.jsonPaths(sigs)
+	order = s.responsePaths(sigs, paths, order)
 	var res []*vJDec
 	for _, m := range order {
 		pr := paths[m]
-		root := s.byType[pr.sg.req]
-		bx, err := pr.sg.unmarshalJSON([]byte(vNest(pr.path, "{}")))
+		root := pr.root
+		bx, err := pr.unmarshal([]byte(vNest(pr.path, "{}")))
 		if err != nil {
 			stat("json_probe_unreachable", 1)
 			continue
